@@ -15,6 +15,11 @@ Third kind (round 3): session - a HISTORY of several schedules in one process (s
           several objects / fields per recipe, direct CalendarRule calls advanced in turn) whose date values are
           drawn from a small pool of instants and spelled in different zones, types and precisions; every
           schedule is judged by the reference recurrence (and the model) of its OWN keywords.
+Round 5:  recipe cases of class `offset_text` - include / exclude entries written as TEXT with a UTC offset at times
+          of day where the day as written is not the UTC day, as quoted strings and as datetime(...) formulas, under
+          `snowfakery_version` 2 (formula results are text) and 3 (objects); sessions of class `macro` - Schedule.Event
+          inside macros that several templates (top level, friends, nested, through another macro, a macro's own
+          friend template) include: one schedule per (template, field), each judged on its own.
 Engine model (round 3): whenever the real engine produced the values (recipe and session cases), the model's
           own recurrence engine (Schedule.v: rr_occ / rs_occ, proved exact in ScheduleP.v) is evaluated on the
           engine calls and compared with dateutil's raw output, inside the fragment it covers.
@@ -46,7 +51,11 @@ RULE = ("cases: (direct) CalendarRule(**kw) with recording stand-ins for rrule/r
         "sets of one zone; `outside_model_fragment` counts the cases where that comparison did not apply); (session) "
         "2-10 schedules in one process over 1-3 steps (recipes with several objects / interleaved fields, direct calls "
         "advanced in turn), date values spelled in different zones / types / precisions for the same instants; "
-        "every schedule compared with the reference and the model of its own keywords.  non-trivial: the rule was "
+        "every schedule compared with the reference and the model of its own keywords; (offset_text) include / exclude "
+        "entries as text carrying an offset whose written day differs from the UTC day, quoted or as a datetime() formula, "
+        "snowfakery_version 2 and 3; (macro) 2-12 schedules written once in macros and included by several templates / "
+        "friends / nested templates / macros, each (template, field) compared with the recurrence of its keywords from the "
+        "first occurrence on.  non-trivial: the rule was "
         "constructed and at least one by*/until/include/exclude/interval keyword was given (session: two schedules "
         "produced rows and two differently spelled values denote one instant); distinct by case hash")
 TRUSTED = ["harness/c15.py: recording stand-ins / subclasses put in place of Schedule.rrule and Schedule.rruleset "
@@ -687,6 +696,12 @@ def generate(rng, tier):
         cases.append(gen_session(rng))
     for _ in range(40 if nq else 1000):
         cases.append(gen_session(rng, general=True))
+    # round 5: text include / exclude entries with offsets (both dialects); macros included by several templates
+    rng5 = __import__("random").Random(rng.random())
+    for _ in range(220 if nq else 5000):
+        cases.append(gen_offset_text_case(rng5))
+    for _ in range(110 if nq else 2500):
+        cases.append(gen_macro_session(rng5))
     return cases
 
 
@@ -756,6 +771,127 @@ def gen_recipe_single(rng, key):
 
 
 
+# ================================================================ include / exclude written as TEXT with an offset
+# (round 5) A text entry of include / exclude is a "simple date": the calendar day AS WRITTEN, at the start's
+# time of day in the start's zone - whatever time and offset the text carries.  The generator writes entries
+# whose day as written differs from the UTC day of the instant they spell (late evening west of Greenwich,
+# early morning east of it), as quoted strings in both dialects and as `${{datetime(..., timezone=...)}}`
+# formulas, which are TEXT under `snowfakery_version: 2` and datetime OBJECTS (instants) under version 3.
+def formula_leaf(d, version):
+    """the value of `${{datetime(...)}}` for the aware whole-second datetime d in the given dialect"""
+    if version == 2:
+        return L("str", str(d), via="formula", dt=lit_dt(d)["v"])
+    return L("dt", lit_dt(d)["v"], via="formula")
+
+
+def _crossing_time(rng, off):
+    """seconds of the local day at which the UTC calendar day differs from the local one (None: there is none)"""
+    if off > 0:
+        return rng.randrange(0, off)
+    if off < 0:
+        return rng.randrange(86400 + off, 86400)
+    return None
+
+
+def _at(d, sec, off):
+    return datetime(d.year, d.month, d.day, sec // 3600, (sec % 3600) // 60, sec % 60, tzinfo=timezone(timedelta(seconds=off)))
+
+
+def text_entry(rng, day, version, like=None, allow_formula=True):
+    """an include / exclude leaf that names `day` as written; like=(seconds of day, offset) of the start"""
+    r = rng.random()
+    if like is not None and r < 0.45:
+        sec, off = like
+    else:
+        off = rng.choice(ZONES + [0]) if r < 0.9 else 0
+        sec = _crossing_time(rng, off) if rng.random() < 0.75 else None
+        if sec is None:
+            sec = rng.randrange(86400)
+        if rng.random() < 0.5:
+            sec -= sec % 60
+    d = _at(day, sec, off)
+    f = rng.choice(["str", "str", "formula", "formula", "native"]) if allow_formula and off % 60 == 0 else "str"
+    if f == "formula":
+        return formula_leaf(d, version)
+    if f == "native":
+        return lit_dt(d)
+    s = d.replace(tzinfo=None).isoformat(sep=rng.choice(["T", " "]))
+    return L("str", s + (rng.choice(["Z", "+00:00"]) if off == 0 else fmt_off(off)))
+
+
+def gen_offset_text_case(rng):
+    version = rng.choice([2, 3])
+    d = rand_day(rng)
+    off = rng.choice(ZONES + [0, 0])
+    sec = _crossing_time(rng, off) if rng.random() < 0.7 else None
+    if sec is None:
+        sec = rng.randrange(86400)
+    sec -= sec % rng.choice([1, 60, 1800])
+    start = _at(d, sec, off)
+    like = (sec, off)
+    r = rng.random()
+    if r < 0.2:        # a date-precision start: entries are days at 00:00 UTC
+        start = datetime(d.year, d.month, d.day, tzinfo=UTC)
+        like = None
+        sexpr = lit_date(d) if rng.random() < 0.5 else L("str", d.isoformat())
+    elif r < 0.5:
+        sexpr = lit_dt(start)
+    elif r < 0.75:
+        sexpr = L("str", start.replace(tzinfo=None).isoformat(sep=rng.choice(["T", " "])) + (rng.choice(["", "Z"]) if off == 0 else fmt_off(off)))
+    else:
+        sexpr = formula_leaf(start, version) if off % 60 == 0 else lit_dt(start)
+    freq_i = rng.choice([1, 2, 3, 3, 3])
+    interval = rng.choice([1, 1, 1, 2])
+    kw = [["freq", L("str", FREQS[freq_i].lower())], ["start_date", sexpr]]
+    if interval > 1:
+        kw.append(["interval", L("int", interval)])
+    n_occ = rng.choice([3, 4, 6, 8])
+
+    def occ_day(k):
+        if freq_i == 1:
+            return _add_months(start, k * interval).date()
+        return (start + period(freq_i, interval, k)).date()
+    if d.day > 28 and freq_i == 1:
+        freq_i, kw[0] = 3, ["freq", L("str", "daily")]
+    mode = "for_each" if rng.random() < 0.3 else "count"
+    if mode == "for_each" or rng.random() < 0.5:
+        r = rng.random()
+        if r < 0.4:
+            kw.append(["count", L("int", n_occ)])
+        elif r < 0.75:
+            u = occ_day(n_occ - 1)
+            kw.append(["until", lit_date(u) if rng.random() < 0.5 else L("str", u.isoformat())])
+        else:      # a datetime `until` (text or object) is an instant, whatever zone it is written in
+            kw.append(["until", text_entry(rng, occ_day(n_occ - 1), version, like)])
+    keys = rng.choice([["exclude"], ["exclude"], ["include"], ["exclude", "include"]])
+    n_rows = n_occ
+    for key in keys:
+        def one():
+            if key == "exclude":
+                day = occ_day(rng.randrange(0, n_occ)) if rng.random() < 0.85 else occ_day(1) + timedelta(days=rng.choice([-1, 1]))
+            else:
+                day = occ_day(rng.randrange(0, n_occ + 3)) + timedelta(days=rng.choice([0, 1, 1, 2, -1, 40]))
+            return text_entry(rng, day, version, like)
+        if version == 3 and rng.random() < 0.3:
+            items = [one() for _ in range(rng.choice([1, 2, 3]))]
+            items = [x if not (x["t"] == "dt" and x.get("via") != "formula" and (x["v"][7] is None or x["v"][7] % 60)) else
+                     L("str", to_py_dt(x["v"]).isoformat()) for x in items]
+            kw.append([key, L("seq", items, tuple=True)])
+        elif rng.random() < 0.12:
+            inner = [["freq", L("str", "daily")], ["start_date", text_entry(rng, occ_day(1), version, like, allow_formula=True)],
+                     ["count", L("int", 2)], [rng.choice(["exclude", "include"]), one()]]
+            if rng.random() < 0.4:
+                inner[1] = ["start_date", sexpr]
+            kw.append([key, L("event", kw=inner)])
+        else:
+            kw.append([key, one()])
+    head, tail = kw[:1], kw[1:]
+    rng.shuffle(tail)
+    case = {"kind": "recipe", "kw": head + tail, "version": version, "cls": "offset_text"}
+    case["mode"] = "for_each" if mode == "for_each" else {"count": rng.randint(1, max(1, n_rows - 1))}
+    return case
+
+
 # ================================================================ sessions: several schedules in one process
 # Every schedule's output is a function of its OWN keywords.  A session is a history: several
 # generate_data runs (each with several objects using Schedule.Event) and direct CalendarRule calls
@@ -798,8 +934,9 @@ def _add_months(T, k):
         return T.replace(year=y, month=m + 1, day=28)
 
 
-def gen_session_event(rng, pool, how):
-    """one Schedule.Event whose date-valued keywords are spellings of instants of the pool"""
+def gen_session_event(rng, pool, how, r5=False):
+    """one Schedule.Event whose date-valued keywords are spellings of instants of the pool
+    (r5: include / exclude leaves may be text too - a text names the DAY as written)"""
     freq_i = rng.choice([0, 1, 1, 1, 2, 3, 3, 4])
     T = pool[0] if rng.random() < 0.6 else rng.choice(pool)
     fname = FREQS[freq_i]
@@ -835,11 +972,11 @@ def gen_session_event(rng, pool, how):
     if freq_i <= 3 and rng.random() < 0.3:
         key = rng.choice(["exclude", "include"])
         X = rng.choice(pool)
-        leaf = lambda: spell(rng, rng.choice(pool), allow_date=True, native_only=True)
+        leaf = lambda: spell(rng, rng.choice(pool), allow_date=True, native_only=not (r5 and rng.random() < 0.4))
         if how == "direct" and rng.random() < 0.5:
             kw.append([key, L("seq", [leaf() for _ in range(rng.choice([1, 2, 3]))], tuple=rng.random() < 0.5)])
         else:
-            kw.append([key, spell(rng, X, allow_date=True, native_only=True)])
+            kw.append([key, spell(rng, X, allow_date=True, native_only=True) if not r5 else leaf()])
         if key == "exclude":
             n_avail = None
         elif n_avail is not None:
@@ -856,7 +993,7 @@ def gen_session_event(rng, pool, how):
     return ev
 
 
-def gen_session(rng, general=False):
+def _session_pool(rng):
     d = rand_day(rng)
     r = rng.random()
     if r < 0.35:
@@ -866,8 +1003,13 @@ def gen_session(rng, general=False):
     else:
         hms = (rng.randint(0, 23), rng.choice([0, 15, 30, 45, rng.randint(0, 59)]), rng.choice([0, 0, rng.randint(0, 59)]))
     T0 = datetime(d.year, d.month, d.day, *hms, tzinfo=UTC)
-    pool = [T0, T0 + timedelta(days=1), T0 + timedelta(days=7), _add_months(T0, 1), _add_months(T0, 3),
+    return [T0, T0 + timedelta(days=1), T0 + timedelta(days=7), _add_months(T0, 1), _add_months(T0, 3),
             T0 + timedelta(hours=rng.choice([1, 5, 24 * 14]))]
+
+
+def gen_session(rng, general=False):
+    pool = _session_pool(rng)
+    T0 = pool[0]
     steps = []
     for _ in range(rng.choice([1, 2, 2, 3])):
         how = "direct" if rng.random() < 0.25 else "recipe"
@@ -901,6 +1043,232 @@ def gen_session(rng, general=False):
     if sum(len(s["events"]) for s in steps) < 2:
         steps.append({"how": "recipe", "events": [gen_session_event(rng, pool, "recipe")]})
     return {"kind": "session", "steps": steps}
+
+
+# ---- round 5: schedules reached through macros.  A macro's fields become fields of EVERY template that includes
+# it (top-level templates, friends, nested templates, through another macro); each including template is its own
+# place of use of Schedule.Event and must list the whole recurrence from its first occurrence on, however the
+# other templates are interleaved with it.  The step's `events` holds one entry per (template, field); `layout`
+# says how they are written down.
+def _route_formulas(rng, kw, version, p):
+    """some aware datetime values are written as datetime(...) formulas instead of YAML timestamps:
+    still objects under version 3, TEXT under version 2 (YAML timestamps are objects in both dialects)"""
+    out = []
+    for k, v in kw:
+        if v["t"] == "event":
+            v = dict(v, kw=_route_formulas(rng, v["kw"], version, p))
+        elif k in DATE_KEYS and v["t"] == "dt" and v["v"][7] is not None and v["v"][7] % 60 == 0 and v["v"][6] == 0 \
+                and rng.random() < p:
+            v = formula_leaf(to_py_dt(v["v"]), version)
+        out.append([k, v])
+    return out
+
+
+def _has_seq(kw):
+    return any(v["t"] == "seq" or (v["t"] == "event" and _has_seq(v["kw"])) for _, v in kw)
+
+
+def _macro_event(rng, pool, need):
+    """a schedule for a macro: enough occurrences for `need` rows of every including template"""
+    ev = gen_session_event(rng, pool, "recipe_count", r5=True)
+    kw = [[k, v] for k, v in ev["kw"] if k not in ("until", "count")]
+    r = rng.random()
+    if r < 0.5:
+        kw.append(["count", L("int", need + rng.choice([0, 1, 5, 20]) + (6 if kwget(kw, "exclude") else 0))])
+    return kw
+
+
+def gen_macro_session(rng):
+    pool = _session_pool(rng)
+    version = rng.choice([2, 3, 3])
+    events, macros = [], []
+    MAXROWS = 8
+    n_macros = rng.choice([1, 1, 2])
+    for j in range(n_macros):
+        fields = [[f"m{j}f{k}", _macro_event(rng, pool, MAXROWS)] for k in range(rng.choice([1, 1, 2]))]
+        macros.append({"name": f"m{j}", "fields": fields, "include": None})
+    if n_macros == 2 and rng.random() < 0.6:
+        macros[1]["include"] = "m0"              # a macro that includes a macro
+    if version == 2 and any(_has_seq(kw) for m in macros for _, kw in m["fields"]):
+        version = 3                              # (sequences are written as formulas: objects only in version 3)
+    for m in macros:
+        m["fields"] = [[f, _route_formulas(rng, kw, version, 0.4)] for f, kw in m["fields"]]
+    # a macro with FRIENDS: every top-level template that includes it gets its own copy of the friend template
+    # (same table name; the copies run one after the other, so their rows are consecutive blocks of that table)
+    mf = None
+    if rng.random() < 0.4:
+        kwf = _route_formulas(rng, _macro_event(rng, pool, MAXROWS), version, 0.4)
+        if version == 2 and _has_seq(kwf):
+            kwf = [[k, v] for k, v in kwf if not (v["t"] == "seq" or v["t"] == "event")]
+        mf = {"name": "mf", "include": None, "friend": {"name": "MF", "count": rng.choice([1, 1, 2]), "field": "g0", "kw": kwf},
+              "fields": [["mff0", _route_formulas(rng, _macro_event(rng, pool, MAXROWS), version, 0.4)]] if rng.random() < 0.4 else []}
+        if version == 2 and any(_has_seq(kw) for _, kw in mf["fields"]):
+            mf["fields"] = []
+        macros.append(mf)
+    by_name = {m["name"]: m for m in macros}
+
+    def macro_fields(name):
+        m = by_name[name]
+        return (macro_fields(m["include"]) if m["include"] else []) + [[f, kw, name] for f, kw in m["fields"]]
+    counter = [0]
+
+    def template(kind, rows_above, depth):
+        i = counter[0]
+        counter[0] += 1
+        t = {"name": f"{kind}{i}", "include": [], "slots": [], "own": [], "nested": [], "friends": []}
+        if kind == "K":
+            t["count"], rows = None, rows_above
+        else:
+            room = max(1, MAXROWS // rows_above)
+            t["count"] = rng.randint(1, min(4, room))
+            rows = rows_above * t["count"]
+        r = rng.random()
+        inc = ["m0"] if r < 0.75 else []
+        if n_macros == 2 and rng.random() < 0.5:
+            inc = [rng.choice(["m1", "m1", "m0"])] if macros[1]["include"] else rng.choice([["m1"], ["m0", "m1"], ["m1", "m0"]])
+        if mf and kind == "E" and rng.random() < 0.7 and rows * mf["friend"]["count"] <= MAXROWS:
+            inc = inc + ["mf"] if rng.random() < 0.5 else ["mf"] + inc
+            t["mfriends"] = [{"name": mf["friend"]["name"], "count": mf["friend"]["count"], "include": [], "slots": [], "nested": [],
+                              "friends": [], "own": [[mf["friend"]["field"], None]], "rows": rows * mf["friend"]["count"]}]
+        t["include"] = inc
+        seen = set()
+        for name in inc:
+            for f, kw, src in macro_fields(name):
+                if f in seen:
+                    continue
+                seen.add(f)
+                t["slots"].append([f, len(events), src])
+                events.append({"kw": json.loads(json.dumps(kw)), "mode": {"count": rows}})
+        if rng.random() < 0.35:                  # a schedule of its own next to the included ones
+            if rng.random() < 0.5 and macros[0]["fields"]:
+                kw = json.loads(json.dumps(macros[0]["fields"][0][1]))      # the macro's schedule, written out
+            else:
+                kw = _route_formulas(rng, _macro_event(rng, pool, MAXROWS), version, 0.4)
+                if version == 2 and _has_seq(kw):
+                    kw = [[k, v] for k, v in kw if not (v["t"] == "seq" or v["t"] == "event")]
+            t["own"].append([f"d{len(events)}", len(events)])
+            events.append({"kw": kw, "mode": {"count": rows}})
+        for fr in t.get("mfriends", []):
+            fr["own"][0][1] = len(events)
+            events.append({"kw": json.loads(json.dumps(mf["friend"]["kw"])), "mode": {"count": fr.pop("rows")}})
+        if depth < 2 and rng.random() < (0.35 if depth == 0 else 0.15):
+            t["nested"].append([f"kid{counter[0]}", template("K", rows, depth + 1)])
+        if depth < 2 and rows < MAXROWS and rng.random() < (0.4 if depth == 0 else 0.15):
+            t["friends"].append(template("F", rows, depth + 1))
+        return t
+    templates = [template("E", 1, 0) for _ in range(rng.choice([2, 2, 3]))]
+
+    def includers(t):
+        return (1 if t["slots"] else 0) + sum(includers(x) for _, x in t["nested"]) + sum(includers(x) for x in t["friends"])
+    if sum(includers(t) for t in templates) < 2:
+        for t in templates[:2]:
+            if not t["slots"]:
+                t["include"] = t["include"] + ["m0"]
+                rows = t["count"]
+                for f, kw, src in macro_fields("m0"):
+                    t["slots"].append([f, len(events), src])
+                    events.append({"kw": json.loads(json.dumps(kw)), "mode": {"count": rows}})
+    pos = 0
+    for t in templates:                           # which rows of the shared friend table belong to which copy
+        for fr in t.get("mfriends", []):
+            n = events[fr["own"][0][1]]["mode"]["count"]
+            fr["slice"] = [pos, pos + n]
+            pos += n
+    step = {"how": "recipe", "events": events, "version": version,
+            "layout": {"macros": [dict({"name": m["name"], "include": m["include"], "fields": [f for f, _ in m["fields"]]},
+                                       **({"friend": {k: v for k, v in m["friend"].items() if k != "kw"}} if m.get("friend") else {}))
+                                  for m in macros],
+                       "templates": templates}}
+    steps = [step]
+    if rng.random() < 0.3:                       # the same process goes on with ordinary schedules of the same instants
+        steps.append({"how": "recipe", "events": [gen_session_event(rng, pool, "recipe") for _ in range(rng.choice([1, 2]))]})
+        if rng.random() < 0.5:
+            steps.reverse()
+    return {"kind": "session", "steps": steps, "cls": "macro"}
+
+
+def layout_templates(layout):
+    """all templates of a layout in the order of their first evaluation (a template's own row is built
+    field by field - nested templates where their field stands -, then its friends)"""
+    out = []
+
+    def walk(t):
+        out.append(t)
+        for _, k in t["nested"]:
+            walk(k)
+        for f in t.get("mfriends", []) + t["friends"]:
+            walk(f)
+    for t in layout["templates"]:
+        walk(t)
+    return out
+
+
+def layout_order(layout):
+    """event indexes in the order in which the schedules are first evaluated: included fields, own fields,
+    nested templates, friends"""
+    out = []
+
+    def walk(t):
+        out.extend(i for _, i, _ in t["slots"])
+        out.extend(i for _, i in t["own"])
+        for _, k in t["nested"]:
+            walk(k)
+        for f in t.get("mfriends", []) + t["friends"]:
+            walk(f)
+    for t in layout["templates"]:
+        walk(t)
+    return out
+
+
+def render_layout_recipe(st):
+    events, lay = st["events"], st["layout"]
+    lines = [f"- snowfakery_version: {st.get('version', 3)}", "- plugin: snowfakery.standard_plugins.Schedule"]
+    defs = {}
+    for t in layout_templates(lay):
+        for f, i, src in t["slots"]:
+            defs.setdefault((src, f), i)          # (every instance carries the same keywords)
+    for m in lay["macros"]:
+        lines.append(f"- macro: {m['name']}")
+        if m["include"]:
+            lines.append(f"  include: {m['include']}")
+        lines.append("  fields:")
+        for f in m["fields"]:
+            if (m["name"], f) not in defs:
+                lines.append(f"    {f}: 0")
+                continue
+            lines += [f"    {f}:", "      Schedule.Event:"] + _yaml_kw(events[defs[(m["name"], f)]]["kw"], 8)
+        if not m["fields"]:
+            lines.pop()
+        fr = m.get("friend")
+        if fr:
+            inst = [t for t in layout_templates(lay) if t["name"] == fr["name"]]
+            lines += ["  friends:", f"    - object: {fr['name']}", f"      count: {fr['count']}"]
+            if inst:
+                lines += ["      fields:", f"        {fr['field']}:", "          Schedule.Event:"] + \
+                    _yaml_kw(events[inst[0]["own"][0][1]]["kw"], 12)
+
+    def tmpl(t, ind, as_item=True):
+        pad = " " * ind
+        out = [f"{pad}- object: {t['name']}"]
+        if t["count"] is not None:
+            out.append(f"{pad}  count: {t['count']}")
+        if t["include"]:
+            out.append(f"{pad}  include: {', '.join(t['include'])}")
+        if t["own"] or t["nested"]:
+            out.append(f"{pad}  fields:")
+            for f, i in t["own"]:
+                out += [f"{pad}    {f}:", f"{pad}      Schedule.Event:"] + _yaml_kw(events[i]["kw"], ind + 8)
+            for f, k in t["nested"]:
+                out.append(f"{pad}    {f}:")
+                out += tmpl(k, ind + 6)
+        if t["friends"]:
+            out.append(f"{pad}  friends:")
+            for fr in t["friends"]:
+                out += tmpl(fr, ind + 4)
+        return out
+    for t in lay["templates"]:
+        lines += tmpl(t, 0)
+    return "\n".join(lines) + "\n"
 
 
 def session_events(case):
@@ -1162,24 +1530,32 @@ def _yaml_scalar(e):
     raise ValueError(t)
 
 
-def _jinja(e):
+def _jinja(e, top=False):
     t = e["t"]
+    if t == "str" and e.get("via") == "formula" and not top:
+        return json.dumps(e["v"])          # inside a sequence: the text itself
     if t == "none":
         return "None"
     if t == "bool":
         return "True" if e["v"] else "False"
     if t == "int":
         return str(e["v"])
-    if t == "str":
+    if t == "str" and e.get("via") != "formula":
         return json.dumps(e["v"])
     if t == "date":
         v = e["v"]
         return f"date(year={v[0]}, month={v[1]}, day={v[2]})"
-    if t == "dt":
-        v = e["v"]
-        if v[7] != 0 or v[6] != 0:
-            raise ValueError("only whole-second UTC datetimes can be written inside a formula")
-        return (f"datetime(year={v[0]}, month={v[1]}, day={v[2]}, hour={v[3]}, minute={v[4]}, second={v[5]})")
+    if t == "dt" or (t == "str" and e.get("via") == "formula"):
+        # (a `str` leaf marked via=formula is the TEXT of this formula's result under snowfakery_version 2;
+        #  written as a formula only where it stands alone)
+        v = e["v"] if t == "dt" else e["dt"]
+        if v[7] is None or v[6] != 0 or v[7] % 60 != 0:
+            raise ValueError("only whole-second aware datetimes can be written inside a formula")
+        s = f"datetime(year={v[0]}, month={v[1]}, day={v[2]}, hour={v[3]}, minute={v[4]}, second={v[5]}"
+        if v[7] != 0:
+            sg = -1 if v[7] < 0 else 1
+            s += f", timezone=relativedelta(hours={sg * (abs(v[7]) // 3600)}, minutes={sg * ((abs(v[7]) % 3600) // 60)})"
+        return s + ")"
     if t == "seq":
         items = [_jinja(x) for x in e["v"]]
         if e.get("tuple"):
@@ -1198,8 +1574,9 @@ def _yaml_kw(kw, indent):
             lines.append(f"{pad}{k}:")
             lines.append(f"{pad}  Schedule.Event:")
             lines.extend(_yaml_kw(v["kw"], indent + 4))
-        elif v["t"] == "seq":
-            j = _jinja(v).replace("'", "''")
+        elif v["t"] == "seq" or v.get("via") == "formula":
+            # a datetime written as a formula: an OBJECT under snowfakery_version 3, its TEXT under version 2
+            j = _jinja(v, top=True).replace("'", "''")
             lines.append(f"{pad}{k}: '${{{{ {j} }}}}'")
         else:
             lines.append(f"{pad}{k}: {_yaml_scalar(v)}")
@@ -1209,7 +1586,7 @@ def _yaml_kw(kw, indent):
 
 
 def render_recipe(case):
-    head = ["- snowfakery_version: 3", "- plugin: snowfakery.standard_plugins.Schedule", "- object: E"]
+    head = [f"- snowfakery_version: {case.get('version', 3)}", "- plugin: snowfakery.standard_plugins.Schedule", "- object: E"]
     if case["mode"] == "for_each":
         body = ["  for_each:", "    var: D", "    value:", "      Schedule.Event:"] + _yaml_kw(case["kw"], 8) + \
                ["  fields:", "    d: ${{D}}"]
@@ -1254,13 +1631,60 @@ def _guarded(fn, limit):
             signal.alarm(max(1, int(remaining - (_time.time() - t0))))
 
 
+def _formula_leaves(kws):
+    out = []
+
+    def walk(e):
+        if e.get("via") == "formula":
+            out.append(e)
+        elif e["t"] == "seq":
+            for x in e["v"]:
+                walk(x)
+        elif e["t"] == "event":
+            for _, v in e["kw"]:
+                walk(v)
+    for kw in kws:
+        for _, v in kw:
+            walk(v)
+    return out
+
+
+def _probe_formulas(kws, version):
+    """The datetime(...) formulas of a case, evaluated on their own in the case's dialect, must print as the
+    datetime the case assumes (the formula language is not this property's subject).  -> None | reason to skip"""
+    from snowfakery import generate_data
+    leaves = _formula_leaves(kws)
+    if not leaves:
+        return None
+    lines = [f"- snowfakery_version: {version}", "- object: P", "  fields:"]
+    want = []
+    for i, e in enumerate(leaves):
+        lines.append(f"    p{i}: '${{{{ {_jinja(e, top=True)} }}}}'")
+        want.append(str(to_py_dt(e["v"] if e["t"] == "dt" else e["dt"])))
+    out = io.StringIO()
+    try:
+        generate_data(io.StringIO("\n".join(lines) + "\n"), output_file=out, output_format="json")
+        row = json.loads(out.getvalue())[0]
+        got = [row.get(f"p{i}") for i in range(len(leaves))]
+    except BaseException as e:
+        if isinstance(e, (KeyboardInterrupt, SystemExit)) or type(e).__name__ == "_CaseTimeout":
+            raise
+        return f"a datetime(...) formula of the case cannot be evaluated on its own: {type(e).__name__}"
+    if got != want:
+        return f"a datetime(...) formula of the case prints as {got}, the case assumes {want}"
+    return None
+
+
 def _run_recipe(case, S, mock):
     from snowfakery import generate_data
     RecRRule, RecRuleSet, state, enc_set = _make_recorders(delegate=True)
     try:
         text = render_recipe(case)
+        why = _probe_formulas([case["kw"]], case.get("version", 3))
     except ValueError as e:
         return {"skip": f"case cannot be rendered: {e}"}
+    if why:
+        return {"skip": why}
     # The engine walks period by period and can need minutes for sparse or unsatisfiable filter
     # combinations.  Such a case says nothing about Snowfakery: the pure-dateutil reference is run
     # first under its own budget and the case is dropped when the ENGINE alone is that slow.  (When
@@ -1388,10 +1812,14 @@ def _run_session(case, S, mock):
         so = {"events": [{} for _ in st["events"]]}
         with mock.patch.object(S, "rrule", RecRRule), mock.patch.object(S, "rruleset", RecRuleSet):
             if st["how"] == "recipe":
+                lay = st.get("layout")
                 try:
-                    text = render_session_recipe(st)
+                    text = render_layout_recipe(st) if lay else render_session_recipe(st)
+                    why = _probe_formulas([ev["kw"] for ev in st["events"]], st.get("version", 3))
                 except ValueError as e:
                     return {"skip": f"case cannot be rendered: {e}"}
+                if why:
+                    return {"skip": why}
                 so["recipe"] = text
                 out = io.StringIO()
                 try:
@@ -1399,7 +1827,15 @@ def _run_session(case, S, mock):
                     txt = out.getvalue()
                     rows = json.loads(txt) if txt.strip() else []
                     so["ok"] = True
-                    for oi, idxs in enumerate(session_objects(st)):
+                    if lay:         # one schedule per (template, field): the rows of that table, that column
+                        for t in layout_templates(lay):
+                            for f, i in [(x[0], x[1]) for x in t["slots"]] + [(x[0], x[1]) for x in t["own"]]:
+                                vals = [_parse_out(r.get(f)) for r in rows if r.get("_table") == t["name"]]
+                                if t.get("slice"):      # one of several copies of a macro's friend: its block of rows
+                                    whole = len(vals) == max(x["slice"][1] for x in layout_templates(lay) if x["name"] == t["name"])
+                                    vals = vals[t["slice"][0]:t["slice"][1]] if whole else vals
+                                so["events"][i].update(ok=True, n_rows=len(vals), values=vals[:FOR_EACH_CAP + 1])
+                    for oi, idxs in enumerate(session_objects(st) if not lay else []):
                         for i in idxs:
                             vals = [_parse_out(r.get(f"d{i}")) for r in rows if r.get("_table") == f"E{oi}"]
                             so["events"][i].update(ok=True, n_rows=len(vals), values=vals[:FOR_EACH_CAP + 1])
@@ -1434,14 +1870,33 @@ def _run_session(case, S, mock):
         # which recorded rule set belongs to which event: rules are constructed in object order, the
         # nested ones of an event before the event's own (they are its arguments)
         want = [sum(1 for _ in walk_events(ev["kw"])) for ev in st["events"]]
-        if so.get("ok") and len(state["sets"]) == sum(want) and not state["engine_err"]:
+        order = layout_order(st["layout"]) if st.get("layout") else list(range(len(st["events"])))
+        if so.get("ok") and len(state["sets"]) == sum(want) and not state["engine_err"] and \
+                sorted(order) == list(range(len(st["events"]))):
             k = 0
-            for eo, w in zip(so["events"], want):
+            found = []
+            for i in order:
+                eo, w = so["events"][i], want[i]
                 k += w
                 if eo.get("ok") or eo.get("err") == "StopIteration":
-                    top = state["sets"][k - 1]
-                    eo["tree"] = enc_set(top)
-                    eo["stream"] = [enc_dt(x) for x in top._sfv["yielded"][:FOR_EACH_CAP + 1]]
+                    found.append((eo, state["sets"][k - 1]))
+            if st.get("layout"):
+                # the order of first evaluation is read off the layout; if the engine's output does not begin with
+                # the rows attributed to it, the attribution is not trusted (the oracle does not depend on it)
+                def same(eo, top):
+                    vals = eo.get("values", [])
+                    ys = top._sfv["yielded"][:len(vals)]
+                    if len(ys) < len(vals) or not all(isinstance(y, datetime) for y in ys):
+                        return False
+                    return all((v[0] == "d" and y.toordinal() == v[1]) or
+                               (v[0] == "dt" and y.utcoffset() is not None and _instant(["dt"] + enc_dt(y)) == _instant(v))
+                               for v, y in zip(vals, ys))
+                if not all(same(eo, top) for eo, top in found):
+                    found = []
+                    so["sets_not_attributed"] = True
+            for eo, top in found:
+                eo["tree"] = enc_set(top)
+                eo["stream"] = [enc_dt(x) for x in top._sfv["yielded"][:FOR_EACH_CAP + 1]]
         obs["steps"].append(so)
     obs["impl_s"] = round(_time.time() - t0, 3)
     return obs
@@ -1993,6 +2448,12 @@ def _included_datetimes(kw):
     """does `include` (also of a nested schedule) name datetimes?  Their local date need not follow the
     order of the instants (2022-03-23 21:30 -03:30 is later than 2022-03-24 00:00 UTC)"""
     def has_dt(e):
+        if e["t"] == "event":
+            # an included SCHEDULE with a datetime-precision start contributes datetimes of its start's zone
+            sd = kwget(e["kw"], "start_date")
+            if sd is not None and (sd["t"] == "dt" or (sd["t"] == "str" and sd["v"] and not _is_date_only(sd["v"]))):
+                return True
+            return any(k == "include" and has_dt(v) for k, v in e["kw"])
         return e["t"] == "dt" or (e["t"] == "seq" and any(has_dt(x) for x in e["v"]))
     return any(k == "include" and has_dt(v) for ev_kw in walk_events(kw) for k, v in ev_kw)
 
@@ -2120,6 +2581,17 @@ def nontrivial(case, obs):
     if case["kind"] == "session":
         # at least two schedules produced rows and two of the session's date values denote the same instant
         done = sum(1 for so in obs.get("steps", []) for eo in so.get("events", []) if eo.get("ok"))
+        if case.get("cls") == "macro":
+            # a schedule of a macro produced rows in at least two templates
+            for st, so in zip(case["steps"], obs.get("steps", [])):
+                if st.get("layout") and so.get("ok"):
+                    per = Counter((src, f) for t in layout_templates(st["layout"]) for f, i, src in t["slots"]
+                                  if so["events"][i].get("n_rows"))
+                    per.update(("friend-of-macro", t["name"]) for t in layout_templates(st["layout"])
+                               if t.get("slice") and so["events"][t["own"][0][1]].get("n_rows"))
+                    if any(n >= 2 for n in per.values()):
+                        return True
+            return False
         return done >= 2 and _session_shared_instants(case) > 0
     if not obs.get("ok"):
         return False
@@ -2170,6 +2642,77 @@ def _session_shared_instants(case):
     for inst, cls, where in _date_values(case):
         by.setdefault(inst, []).append((cls, where))
     return sum(1 for v in by.values() if len({c for c, _ in v}) >= 2)
+
+
+def _text_entries(kws):
+    """text include / exclude entries (also of nested schedules) that carry a time: (written day == UTC day?, offset?, via)"""
+    from dateutil import parser as duparser
+    out = []
+
+    def leaf(e):
+        if e["t"] == "seq":
+            for x in e["v"]:
+                leaf(x)
+        elif e["t"] == "str" and e["v"] and not _is_date_only(e["v"]):
+            try:
+                d = duparser.parse(e["v"])
+            except Exception:
+                return
+            off = d.utcoffset()
+            moved = off is not None and d.astimezone(UTC).date() != d.date()
+            out.append(("utc-day-differs" if moved else "same-utc-day", "offset" if off else "utc/none",
+                        "formula-text" if e.get("via") == "formula" else "quoted"))
+    for kw0 in kws:
+        for kw in walk_events(kw0):
+            for k, v in kw:
+                if k in ("include", "exclude"):
+                    leaf(v)
+    return out
+
+
+def _offset_text_stats(cases, obss):
+    c1 = Counter()
+    for c, o in zip(cases, obss):
+        c1["cases"] += 1
+        c1[f"version_{c.get('version', 3)}"] += 1
+        ents = _text_entries([c["kw"]])
+        for a, b, v in ents:
+            c1[f"text_entry:{a}/{b}/{v}/v{c.get('version', 3)}"] += 1
+        if any(a == "utc-day-differs" for a, _, _ in ents):
+            c1["cases_with_an_entry_whose_utc_day_differs"] += 1
+        if any(e["t"] == "dt" for e in _formula_leaves([c["kw"]])):
+            c1["cases_with_a_formula_datetime_object"] += 1
+        if isinstance(o, dict):
+            c1["outcome:" + ("skip" if o.get("skip") else "ok" if o.get("ok") else str(o.get("err")))] += 1
+    return dict(c1)
+
+
+def _macro_stats(cases, obss):
+    c1 = Counter()
+    for c, o in zip(cases, obss):
+        c1["sessions"] += 1
+        for st, so in zip(c["steps"], (o.get("steps", []) if isinstance(o, dict) else [])):
+            lay = st.get("layout")
+            if not lay:
+                c1["ordinary_steps_in_the_same_process"] += 1
+                continue
+            c1[f"version_{st.get('version', 3)}"] += 1
+            c1["step:" + ("ok" if so.get("ok") else str(so.get("err")))] += 1
+            if so.get("sets_not_attributed"):
+                c1["engine_calls_not_attributed"] += 1
+            ts = layout_templates(lay)
+            per = Counter((src, f) for t in ts for f, i, src in t["slots"])
+            c1[f"templates_sharing_one_macro_field:{min(max(per.values(), default=0), 5)}"] += 1
+            c1["includers:top-level"] += sum(1 for t in ts if t["slots"] and t["name"][0] == "E")
+            c1["includers:friend"] += sum(1 for t in ts if t["slots"] and t["name"][0] == "F")
+            c1["includers:nested"] += sum(1 for t in ts if t["slots"] and t["name"][0] == "K")
+            c1["macro_including_a_macro"] += sum(1 for m in lay["macros"] if m["include"])
+            c1[f"copies_of_a_macro's_friend_template:{sum(1 for t in ts if t.get('slice'))}"] += 1
+            c1["written_out_schedules_next_to_included_ones"] += sum(len(t["own"]) for t in ts)
+            c1["schedules(template,field)"] += len(st["events"])
+            c1["text_include_exclude_entries"] += len(_text_entries([ev["kw"] for ev in st["events"]]))
+            c1["formula_datetimes"] += len(_formula_leaves([ev["kw"] for ev in st["events"]]))
+    return dict(c1)
 
 
 def _session_stats(cases, obss):
@@ -2224,9 +2767,13 @@ def stats(cases, obss):
     nvals = Counter()
     quirks = Counter()
     slow = 0
-    sess = [(c, o) for c, o in zip(cases, obss) if c["kind"] == "session"]
+    sess = [(c, o) for c, o in zip(cases, obss) if c["kind"] == "session" and c.get("cls") != "macro"]
+    macro = [(c, o) for c, o in zip(cases, obss) if c["kind"] == "session" and c.get("cls") == "macro"]
+    otext = [(c, o) for c, o in zip(cases, obss) if c.get("cls") == "offset_text"]
     for c, o in zip(cases, obss):
         kind = c["kind"] + ("/" + ("for_each" if c.get("mode") == "for_each" else "count") if c["kind"] == "recipe" else "")
+        if c.get("cls"):
+            kind += "[" + c["cls"] + "]"
         kinds[kind] += 1
         if c["kind"] == "session":
             continue
@@ -2266,7 +2813,9 @@ def stats(cases, obss):
             "start_date_type": dict(starts), "start_zone": dict(zones), "nested_events": dict(depth),
             "rows_per_ok_case": dict(nvals), "cases_where_a_known_defect_changes_the_reference": dict(quirks),
             "slow_cases_over_5s": slow,
-            "histories": _session_stats([c for c, _ in sess], [o for _, o in sess])}
+            "histories": _session_stats([c for c, _ in sess], [o for _, o in sess]),
+            "include_exclude_text_with_offsets": _offset_text_stats([c for c, _ in otext], [o for _, o in otext]),
+            "schedules_through_macros": _macro_stats([c for c, _ in macro], [o for _, o in macro])}
 
 
 def shrink(case):
@@ -2293,6 +2842,31 @@ def shrink(case):
 
 def _shrink_session(case):
     steps = case["steps"]
+    if any(st.get("layout") for st in steps):
+        # a layout fixes which schedule stands where: steps without a layout may go, and a keyword is dropped from
+        # every instance of the same macro field together (they are one piece of recipe text)
+        for si, st in enumerate(steps):
+            if not st.get("layout") and len(steps) > 1:
+                yield dict(case, steps=steps[:si] + steps[si + 1:])
+        for si, st in enumerate(steps):
+            if not st.get("layout"):
+                continue
+            groups = {}
+            for t in layout_templates(st["layout"]):
+                for f, i, src in t["slots"]:
+                    groups.setdefault((src, f), []).append(i)
+                for f, i in t["own"]:
+                    groups.setdefault(("own", t["name"], f), []).append(i)
+            for idxs in groups.values():
+                kw0 = st["events"][idxs[0]]["kw"]
+                for j, (k, v) in enumerate(kw0):
+                    if k in ("freq", "start_date"):
+                        continue
+                    evs = list(st["events"])
+                    for i in idxs:
+                        evs[i] = dict(evs[i], kw=[x for x in evs[i]["kw"] if x[0] != k])
+                    yield dict(case, steps=steps[:si] + [dict(st, events=evs)] + steps[si + 1:])
+        return
     n = sum(len(st["events"]) for st in steps)
     if n > 1:
         for si, st in enumerate(steps):           # drop one schedule (never the last one left)
@@ -2323,6 +2897,10 @@ def directed_search(rng, disagreeing):
         out.append(gen_ordinal_weekdays_case(rng))
     for _ in range(300):
         out.append(gen_session(rng, general=rng.random() < 0.2))
+    for _ in range(400):
+        out.append(gen_offset_text_case(rng))
+    for _ in range(200):
+        out.append(gen_macro_session(rng))
     for key in INT_KEYS + ["byweekday", "interval", "count", "cache", "until"]:
         for _ in range(25):
             out.append(gen_direct_single(rng, key))
